@@ -266,3 +266,16 @@ def fa_case(draw, jfa=None, max_sessions=5, maxC=3, maxF=3, d_alive=None):
                 for _ in range(H)]
     return {"ubm": ubm, "jfa": bool(jfa), "U": U, "V": V, "D": D, "sessions": sessions,
             "u_scale": u_scale, "v_scale": v_scale, "d_exp": int(d_exp)}
+
+
+def revive_dead_components(sessions, means, variances):
+    """Every component gets a positive total count over the training set (a component empty in EVERY
+    statistic has no defined subspace rows; ISV/JFA refuse it with LinAlgError)."""
+    tot = sum(s["n"] for s in sessions)
+    for c in np.where(tot <= 0)[0]:
+        s = sessions[0]
+        s["n"][c] = 0.5
+        s["sum_px"][c] = 0.5 * means[c]
+        if "sum_pxx" in s:
+            s["sum_pxx"][c] = 0.5 * (means[c] ** 2 + variances[c])
+    return sessions
